@@ -3,7 +3,7 @@ import os, subprocess, json, re, sys, collections, shutil
 from common import *
 
 NZ_RE = re.compile(r'8000000000000000')
-EXPECT_THEOREMS = 25
+EXPECT_THEOREMS = 32
 
 
 def nz(l):
@@ -43,6 +43,8 @@ def split_runs(path):
             codec = line[2:]
         elif line.startswith('T '):
             stats.append('boundary ' + line[2:])
+        elif line.startswith('Z '):
+            stats.append('inttext ' + line[2:])
         elif line.startswith('GB '):
             stats.append('codecbad ' + line[3:])
         elif line.startswith('# '):
@@ -417,8 +419,12 @@ def run(ck):
             model = []
             cur = None
             model_arms = {}
+            gints = []
             for line in open(mo, errors='replace'):
                 line = line.rstrip('\n')
+                if line.startswith('#gint '):
+                    gints.append(line[6:])
+                    continue
                 if line.startswith('#stat '):
                     k_, v_ = line[6:].rsplit(' ', 1)
                     model_arms[k_] = int(v_)
@@ -566,6 +572,17 @@ def run(ck):
                          replay_obj(r0, {'first_difference(index, text, binary)': dd}))
     for n in names_bad:
         ck.add_violation('names:differ', 'names file written by the writer is read back differently: %s' % n, {'line': n})
+    # integer-valued doubles in text: the real g_fmt text vs the Lean model gfmtInt (the tie of C03_int_text_roundtrip)
+    zl = [s_[len('inttext '):] for s_ in stats if s_.startswith('inttext ')]
+    if model is not None:
+        ck.cov['int_text_compared'] = len(zl)
+        if len(zl) != len(gints):
+            ck.add_violation('inttext:driver-count', 'driver answered %d of %d gint ops' % (len(gints), len(zl)), {}, found_input=False)
+        for a_, b_ in zip(zl, gints):
+            if a_ != b_:
+                ck.add_violation('inttext:model-differs', 'g_fmt prints "%s" for this integer, the Lean model gfmtInt predicts "%s"' % (a_, b_),
+                                 {'impl(v text)': a_, 'model(v text)': b_}, found_input=False)
+                break
     # constructed boundary cases of the number codec
     bline = next((s for s in stats if s.startswith('boundary ')), None)
     ck.cov['number_codec_boundary_TEST_not_proof'] = bline
